@@ -13,6 +13,11 @@ influenced by (or influence) anything the worker has served.
 
     start()                                   once per worker / parent (setup_worker)
     call('sim.props.c08', 'plain_reference', spec, cfg)  -> result of that function in a pristine child
+
+A second, named zygote ('replay', started by simcheck before anything runs and prepared with the module's
+setup_worker) gives the parent "a fresh process per run" for violations that show only the first time a process
+meets their input (a cache inside the system under test filled by the first run): candidates of the minimisation
+and the final confirmation are each evaluated in a child forked from it.
 """
 import importlib
 import os
@@ -22,7 +27,7 @@ import struct
 
 from .core import HarnessError
 
-_Z = {'pid': None, 'w': None, 'r': None, 'owner': None}
+_ZS = {}          # name -> {'pid', 'w', 'r', 'owner'}
 CHILD_TIMEOUT = 30.0
 
 
@@ -64,6 +69,16 @@ def _zygote(rfd, wfd):
         msg = _read(rfd)
         if msg == b'' or msg is None:
             os._exit(0)
+        if msg[0] == '__self__':
+            # executed by the zygote itself: brings it (and every child forked from now on) into a prepared state
+            try:
+                _, modname, fname, args = msg
+                getattr(importlib.import_module(modname), fname)(*args)
+                out = ('ok', None)
+            except BaseException as e:   # noqa
+                out = ('err', f'{type(e).__name__}: {e}')
+            _write(wfd, out)
+            continue
         rr, ww = os.pipe()
         pid = os.fork()
         if pid == 0:
@@ -94,9 +109,10 @@ def _zygote(rfd, wfd):
         _write(wfd, out)
 
 
-def start():
-    """Fork the zygote (idempotent per process).  Must be called before the process serves anything."""
-    if _Z['pid'] is not None and _Z['owner'] == os.getpid():
+def start(name='ref'):
+    """Fork the zygote `name` (idempotent per process).  Must be called before the process serves anything."""
+    z = _ZS.get(name)
+    if z is not None and z['owner'] == os.getpid():
         return
     r1, w1 = os.pipe()
     r2, w2 = os.pipe()
@@ -104,21 +120,37 @@ def start():
     if pid == 0:
         os.close(w1)
         os.close(r2)
-        # the zygote must not keep the pipes of an inherited zygote of its parent process
         try:
             _zygote(r1, w2)
         finally:
             os._exit(0)
     os.close(r1)
     os.close(w2)
-    _Z.update(pid=pid, w=w1, r=r2, owner=os.getpid())
+    _ZS[name] = {'pid': pid, 'w': w1, 'r': r2, 'owner': os.getpid()}
 
 
-def call(modname, fname, *args):
-    if _Z['pid'] is None or _Z['owner'] != os.getpid():
-        raise HarnessError('pristine.start() was not called in this process')
-    _write(_Z['w'], (modname, fname, args))
-    out = _read(_Z['r'], timeout=CHILD_TIMEOUT + 10)
+def adopt():
+    """In a child forked from a zygote: take over the zygotes that zygote owns (children of one zygote run one at
+    a time, so its pipes are never used by two processes at once)."""
+    for z in _ZS.values():
+        z['owner'] = os.getpid()
+
+
+def _roundtrip(name, msg, timeout):
+    z = _ZS.get(name)
+    if z is None or z['owner'] != os.getpid():
+        raise HarnessError(f'pristine.start({name!r}) was not called in this process')
+    _write(z['w'], msg)
+    out = _read(z['r'], timeout=timeout)
     if out is None or out == b'':
-        raise HarnessError('the pristine zygote died')
+        raise HarnessError(f'the pristine zygote {name!r} died')
     return out      # ('ok', value) | ('err', text) | ('timeout', text)
+
+
+def call(modname, fname, *args, zygote='ref'):
+    return _roundtrip(zygote, (modname, fname, args), CHILD_TIMEOUT + 10)
+
+
+def prepare(zygote, modname, fname, *args):
+    """Run modname.fname(*args) inside the zygote itself (e.g. a warm-up every later child starts from)."""
+    return _roundtrip(zygote, ('__self__', modname, fname, args), 600)
